@@ -423,6 +423,18 @@ def run(ctx):  # noqa: C901, PLR0912, PLR0915
                                           'sdc11073.provider.sco._OperationsWorker.run'])
     gathers_isolate_subscribers(ctx, 'C09.R4')
     enqueue_is_bounded(ctx, 'C09.R2')
+    ctx.borrow('C08', {'C08.R6'}, 'C09.R6', contains=['filter tokenised'], why='the subscriber of OperationInvokedReport is matched whatever white space separates its filter')
+    # every session of the consumer gets its own OperationsManager: transaction ids start again at 1 when the provider restarts,
+    # a manager kept over restart() would complete new calls with the stored final reports of the old session
+    sa_ = repo.func('sdc11073.consumer.consumerimpl.SdcConsumer.start_all')
+    gsa = cfg_of(sa_)
+    mk_om = [n_ for n_ in gsa.real_nodes() if n_.kind == 'stmt' and isinstance(n_.stmt, ast.Assign) and
+             any(unparse(t) == 'self.operations_manager' for t in n_.stmt.targets) and isinstance(n_.stmt.value, ast.Call)]
+    cond_om = [t for n_ in mk_om for t, _p in gsa.facts_at(n_).both() if 'operations_manager' in t]
+    ctx.ob('C09.R6', 'a new OperationsManager per session', bool(mk_om) and not cond_om,
+           'start_all creates the OperationsManager unconditionally' if mk_om and not cond_om else
+           f'start_all creates the OperationsManager only under {cond_om}: after restart() the old manager (with the report parts of '
+           f'the previous provider session) answers new calls whose transaction ids start again at 1', fi=sa_)
     ctx.borrow('C04', {'C04.R1'}, 'C09.R2', contains=['run_coro', 'block', 'wait'], why='a notification is delivered before the next state is notified')
     from . import common
     common.log_templates_are_constant(ctx, 'C09.R4', ['sdc11073.provider.sco', 'sdc11073.provider.operations',
